@@ -124,7 +124,9 @@ func (k Keeper) doubleTradeExactInputForOutput(ctx sdk.Context, input types.Inpu
 		return sdkmath.ZeroInt(), err
 	}
 
-	if err := k.swapCoins(ctx, inputAddress, outputAddress, input.Coin, standardCoin); err != nil {
+	// first leg: the intermediate standard coin goes back to the sender, who pays it
+	// into the second pool in the second leg (it must not be credited to the recipient)
+	if err := k.swapCoins(ctx, inputAddress, inputAddress, input.Coin, standardCoin); err != nil {
 		return sdkmath.ZeroInt(), err
 	}
 
@@ -256,7 +258,9 @@ func (k Keeper) doubleTradeInputForExactOutput(ctx sdk.Context, input types.Inpu
 		return sdkmath.ZeroInt(), err
 	}
 
-	if err := k.swapCoins(ctx, inputAddress, outputAddress, soldTokenCoin, soldStandardCoin); err != nil {
+	// first leg: the intermediate standard coin goes back to the sender, who pays it
+	// into the second pool in the second leg (it must not be credited to the recipient)
+	if err := k.swapCoins(ctx, inputAddress, inputAddress, soldTokenCoin, soldStandardCoin); err != nil {
 		return sdkmath.ZeroInt(), err
 	}
 	if err := k.swapCoins(ctx, inputAddress, outputAddress, soldStandardCoin, output.Coin); err != nil {
